@@ -76,6 +76,33 @@ PlainClauses(e) ==
         ELSE IF \E i \in 1..Len(e.doc.plain) : en(i)[1] = "h5" /\ en(i)[2] = "k1" /\ en(i)[3] # "absent" /\ AbsI(en(i)[4] - (e.out.acs.v \div 1000)) <= 2 THEN {}
         ELSE {"plain_dhw_fraction_differs"})
 
+\* the records of the XML document (harness projection xmlrecs: element, texts of its children) against the
+\* components of the evaluated building and the factors of the result: same tags, values at two (three) decimals
+ElOf(k) == CASE k = "USED" -> "Consumo" [] k = "PROD" -> "Produccion" [] k = "AUX" -> "EAux" [] k = "OUT" -> "Salida" [] OTHER -> "Demanda"
+HasF(rec, name) == name \in DOMAIN rec.f
+Txt(rec, name) == IF HasF(rec, name) /\ "s" \in DOMAIN rec.f[name] THEN rec.f[name].s ELSE "?"
+Num(rec, name) == IF HasF(rec, name) /\ "n" \in DOMAIN rec.f[name] THEN rec.f[name].n ELSE -987654
+ValsOf(rec) == IF ~HasF(rec, "Valores") THEN <<>>
+               ELSE IF "l" \in DOMAIN rec.f.Valores THEN rec.f.Valores.l
+               ELSE IF "n" \in DOMAIN rec.f.Valores THEN <<rec.f.Valores.n>> ELSE <<>>
+MatchComp(e, c, rec) ==
+  /\ rec.el = ElOf(c.kind)
+  /\ (c.kind # "NEED" => Num(rec, "Id") = c.id)
+  /\ (c.kind = "USED" => Txt(rec, "Vector") = c.cr)
+  /\ (c.kind \in {"USED", "AUX", "OUT", "NEED"} => Txt(rec, "Servicio") = c.srv)
+  /\ (c.kind = "PROD" => Txt(rec, "Origen") = c.src)
+  /\ Len(ValsOf(rec)) = Len(c.v) /\ HasF(rec, "Valores") /\ rec.f.Valores.d = 2
+  /\ \A t \in 1..Len(c.v) : PrintedOk(ValsOf(rec)[t], 2, c.v[t], e.q, 0)
+MatchFactor(f, rec) ==
+  /\ rec.el = "Factor" /\ Txt(rec, "Vector") = f.cr /\ Txt(rec, "Origen") = f.src /\ Txt(rec, "Destino") = f.dest /\ Txt(rec, "Paso") = f.step
+  /\ \A x \in {<<"ren", 1>>, <<"nren", 2>>, <<"co2", 3>>} :
+        HasF(rec, x[1]) /\ "n" \in DOMAIN rec.f[x[1]] /\ rec.f[x[1]].d = 3 /\ AbsI(rec.f[x[1]].n - f.m[x[2]]) <= 1
+XmlRecordClauses(e) ==
+  IF ~Has_(e.doc, "xmlrecs") THEN {}
+  ELSE LET recs == e.doc.xmlrecs IN
+       (IF \A i \in 1..Len(e.comps) : \E j \in 1..Len(recs) : MatchComp(e, e.comps[i], recs[j]) THEN {} ELSE {"xml_component_not_stated"})
+       \cup (IF \A i \in 1..Len(e.doc.facs) : \E j \in 1..Len(recs) : MatchFactor(e.doc.facs[i], recs[j]) THEN {} ELSE {"xml_factor_not_stated"})
+
 XmlClauses(e) ==
   LET r == XmlAccept(e.doc.xml)
       leaf(path) == {r.leaves[i] : i \in {i \in 1..Len(r.leaves) : r.leaves[i][1] = path}}
@@ -89,6 +116,7 @@ XmlClauses(e) ==
           \cup (IF r.counts["Consumo"] = ncomp("USED") /\ r.counts["Produccion"] = ncomp("PROD") /\ r.counts["EAux"] = ncomp("AUX")
                    /\ r.counts["Salida"] = ncomp("OUT") /\ r.counts["Demanda"] = ncomp("NEED") THEN {} ELSE {"xml_component_elements"})
           \cup (IF ~e.doc.json.reread \/ r.counts["Factor"] = e.doc.json.nfac THEN {} ELSE {"xml_factor_elements"})
+          \cup XmlRecordClauses(e)
 
 \* two renderings of the same input: same entries in the same order; a printed number may differ by one
 \* unit of its last digit plus a few f32 units in the last place of the value (2^-21 relative): the f32 sums
